@@ -237,6 +237,17 @@ var checkC16 = register("C16/workload", func(w workload) string {
 	return ""
 })
 
+// c16Templates: plain, escaping, invalid, and templates that define the same block name
+// with different bodies or call a block only another text defines (a template set shared
+// between exports would make their output depend on which other texts were parsed).
+var c16Templates = []string{"{{.Vector}} {{.SeverityValue}} ({{.BaseScore}})", "{{.AVName}}: {{.AVValue | html}}", "{{.Nope}}", "{{",
+	"{{define \"a\"}}[{{.}}]{{end}}{{template \"a\" .Vector}}", "{{define \"a\"}}<{{.}}>{{end}}{{template \"a\" .Version}}", "{{template \"a\" .BaseScore}}",
+	"{{block \"a\" .}}({{.Version}}){{end}}", ""}
+
+// c16Langs: exact, regional, script and unrelated tags (results are only compared between
+// the concurrent and the sequential run, so unspecified tags are fine here).
+var c16Langs = []string{"en", "ja", "fr", "en-US", "ja-JP", "en-GB", "ja-Jpan-JP", "zh-Hant", "und", "de-CH", "ko-Jpan", "und-JP"}
+
 // storm builds the cold-start workload run first in every process: 16 goroutines issue the
 // same operations at the same time before anything else has touched the library. kind
 // selects which part of the API meets its first use concurrently:
@@ -254,10 +265,12 @@ func storm(kind int) workload {
 		{Ver: 2, Level: 0, Input: "AV:A/AC:M/Au:S/C:C/I:C/A:C"},
 		{Ver: 3, Level: 1, Input: "CVSS:3.1/AV:N/AC:L/PR:N/UI:N/S:U/C:H/I:H/A:H/E:X/RL:BAD"},
 		{Ver: 3, Level: 2, Input: "CVSS:3.2/AV:N"},
+		{Ver: 3, Level: 0, Input: "CVSS:4.0/AV:N/AC:L/PR:N/UI:N/S:U/C:H/I:H/A:H"},
+		{Ver: 3, Level: 1, Input: "CVSS:2.0/AV:N/AC:L/PR:N/UI:N/S:U/C:H/I:H/A:H"},
 		{Ver: 2, Level: 2, Input: "AV:N/AC:L/Au:N/C:P/I:P/A:C/RC:C/RL:U/E:H"},
 		{Ver: 2, Level: 0, Input: "AV:N/AC:L/Au:N/C:P/I:P/ZZ:1"},
 	}}
-	tpls := []string{"{{.Vector}} {{.SeverityValue}} ({{.BaseScore}})", "{{.AVName}}: {{.AVValue | html}}", "{{.Nope}}", "{{", "{{define \"a\"}}[{{.}}]{{end}}{{template \"a\" .Vector}}"}
+	tpls := c16Templates
 	for g := 0; g < 16; g++ {
 		var ops []wop
 		switch kind {
@@ -272,7 +285,7 @@ func storm(kind int) workload {
 				}
 			}
 		case 2:
-			for _, lg := range []string{"ja", "en", "fr"} {
+			for _, lg := range c16Langs {
 				for _, i := range []int{0, 2, 3} {
 					ops = append(ops, wop{Kind: "report", Idx: i, Lang: lg})
 				}
@@ -315,7 +328,7 @@ func TestC16(t *testing.T) {
 		}
 		evalEnum(c, "workload", w, checkC16, &nviol)
 	}
-	tpls := []string{"{{.Vector}} {{.SeverityValue}} ({{.BaseScore}})", "{{range $i, $e := .Version}}{{$e}}{{end}}", "{{.AVName}}: {{.AVValue | html}}", "{{if eq .SeverityValue \"High\"}}!{{end}}{{.Version}}", "{{.Nope}}", "{{define \"a\"}}[{{.}}]{{end}}{{template \"a\" .Vector}}"}
+	tpls := append([]string{"{{range $i, $e := .Version}}{{$e}}{{end}}", "{{if eq .SeverityValue \"High\"}}!{{end}}{{.Version}}"}, c16Templates...)
 	c.rapidStage("workloads", pick(480, 24000), func(rt *rapid.T) {
 		var w workload
 		np := rapid.IntRange(1, 6).Draw(rt, "poolsize")
@@ -351,10 +364,10 @@ func TestC16(t *testing.T) {
 					}
 				case kk < 8:
 					o.Kind = "report"
-					o.Lang = rapid.SampledFrom([]string{"en", "ja", "fr"}).Draw(rt, "lang")
+					o.Lang = rapid.SampledFrom(c16Langs).Draw(rt, "lang")
 				default:
 					o.Kind = "export"
-					o.Lang = rapid.SampledFrom([]string{"en", "ja"}).Draw(rt, "lang")
+					o.Lang = rapid.SampledFrom(c16Langs[:5]).Draw(rt, "lang")
 					o.Tpl = rapid.SampledFrom(tpls).Draw(rt, "tpl")
 					o.Hold = rapid.Bool().Draw(rt, "hold")
 					exports++
